@@ -7,6 +7,8 @@ import (
 	"encoding/json"
 	"flag"
 	"fmt"
+	"io"
+	"log/slog"
 	"os"
 	"sort"
 	"time"
@@ -39,6 +41,7 @@ func main() {
 	)
 	flag.Parse()
 	t0 := time.Now()
+	slog.SetDefault(slog.New(slog.NewTextHandler(io.Discard, nil))) // shovel logs every step
 	run, ok := props.Registry[*prop]
 	if !ok {
 		fmt.Fprintf(os.Stderr, "no runner for %s\n", *prop)
